@@ -345,7 +345,7 @@ PROPS = {
         "spec": None,
         "cfg_grid": True,
         "sm_profiles": ["obj", "obj", "core", "buffer"], "run_profiles": ["obj", "taskc", "resc", "buffer"],
-        "n_sm": {"quick": 200, "thorough": 3000}, "n_run": {"quick": 30, "thorough": 400},
+        "n_sm": {"quick": 200, "thorough": 3000}, "n_run": {"quick": 70, "thorough": 600},
         "run_check": __import__("harness.solverprops", fromlist=["x"]).run_c15,
         "nontrivial": lambda s: True,
         "rule": "ENC over the configuration grid (debug x optimizer x priority): the emitted assertions must be the model's "
@@ -407,13 +407,13 @@ PROPS = {
     },
     "C14": {
         "theorems": ["C14_fresh_problem", "C14_run_after_problem", "C14_valid_order_free", "C05_complete_core"],
-        "profiles": [("all", 0.6), ("obj", 0.2), ("buffer", 0.2)],
+        "profiles": [("all", 0.45), ("core", 0.2), ("obj", 0.15), ("buffer", 0.2)],
         "relevant": lambda o: True,
         "spec": None,
         "exact": True,
         "history_enc": True,
         "run_profiles": ["frag", "frag", "taskc", "obj", "buffer", "resc"],
-        "n_run": {"quick": 120, "thorough": 2000},
+        "n_run": {"quick": 180, "thorough": 2000},
         "run_check": __import__("harness.c14", fromlist=["x"]).run_c14,
         "nontrivial": lambda s: True,
         "rule": "ENC with exactness after history: every script is built by a long-lived worker process that has built "
